@@ -11,6 +11,8 @@ from ..oracle import exact
 
 LEVEL = "exploration"
 TERMS = ["2", "-3", "0.5", "x", "y", "2x", "-3x", "x^2", "2x^2", "3y", "-x", "y^2", "4x^3", "x^0", "0"]
+# addends that are NOT terms (get_term answers False) or are unusual terms: has_like_terms must skip them wherever they stand
+NONTERMS = ["2(y + 1)", "(y + 1)^2", "2^x", "(x + 1)(x + 2)", "-(x + 1)", "sgn(x)", "3!", "x / y"]
 # terms for the like-relation: products of several variables included (the relation compares variable lists)
 REL_TERMS = TERMS + ["x * y", "y * x", "x * x", "2x * y", "x * y * z", "x^2 * y", "x * 2", "3 * 4", "x / y", "-(x * y)", "x * y^2"]
 COEFS = [None, 1, 2, -3, 0.5, 0, -1, 12, -2.5, 2.0, 9, 15, 1.0000000002, 0.9999999999, -1.0000000001]
@@ -383,6 +385,8 @@ def run(tier, seed):
     ms = []
     for n in range(2, nt + 1):
         ms += list(itertools.combinations_with_replacement(TERMS, n))
+    for n in range(2, 4):
+        ms += [m for m in itertools.combinations_with_replacement(TERMS + NONTERMS, n) if any(t in NONTERMS for t in m)]
     _MS[:] = ms
     texts = X.uniform(5 if tier == "quick" else 5) + X.termsums(3, X.TERMS_Q if tier == "quick" else X.TERMS_T)
     if tier == "thorough":
@@ -405,7 +409,8 @@ def run(tier, seed):
     cov = {
         "evaluations": total,
         "distinct_nontrivial": acc.n["nontrivial"] + acc.n["predicate_trees"],
-        "rule": f"(1) every multiset of 2..{nt} addends from {len(TERMS)} terms, has_like_terms compared over ALL permutations x ALL groupings; "
+        "rule": f"(1) every multiset of 2..{nt} addends from {len(TERMS)} terms plus every multiset of 2..3 addends from these and {len(NONTERMS)} non-term / unusual addends {NONTERMS} "
+                f"with at least one of the latter, has_like_terms compared over ALL permutations x ALL groupings; "
                 f"(2) all ordered pairs of terms for terms_are_like (reflexive, symmetric; standalone and as addends); (3) every triple over "
                 f"coefficients {COEFS} x variables {VARS} x exponents {EXPS}: text -> get_term_ex, make_term value and decomposition; "
                 f"(4) factor(n) for every n <= {NF} against the divisor table; (5) every predicate on every uniform / term-structured "
